@@ -18,15 +18,55 @@ from checks import common
 from mc import wfgen, wfscn
 
 PROP = 'C02'
+CORE_JOIN_SHAPES = ('nested_inner_never_triggered', 'nested_inner_triggered',
+                    'jall_chain_inbound', 'jall_impossible_route',
+                    'two_joins_same_inbound')
+EXTRA_JOIN_SHAPES = set()
+
+
+def first_diff(ka, kb):
+    """Where two outcome keys (JSON) differ first, with both values."""
+    try:
+        a, b = json.loads(ka), json.loads(kb)
+    except ValueError:
+        return 'outcomes differ'
+
+    def walk(x, y, path):
+        if type(x) is not type(y):
+            return path, x, y
+        if isinstance(x, dict):
+            for k in sorted(set(x) | set(y)):
+                r = walk(x.get(k), y.get(k), '%s/%s' % (path, k))
+                if r:
+                    return r
+            return None
+        if isinstance(x, list):
+            if len(x) != len(y):
+                return path + '/#', len(x), len(y)
+            for i, (u, w) in enumerate(zip(x, y)):
+                r = walk(u, w, '%s/%d' % (path, i))
+                if r:
+                    return r
+            return None
+        return None if x == y else (path, x, y)
+    r = walk(a, b, '')
+    if not r:
+        return 'outcomes differ'
+    return 'first difference at %s: %s VS %s' % (
+        r[0], json.dumps(r[1], default=str)[:300],
+        json.dumps(r[2], default=str)[:300])
 
 
 def programs():
     P = dict(wfgen.curated())
     J = wfgen.join_shapes()
-    for k in ('nested_inner_never_triggered', 'nested_inner_triggered',
-              'jall_chain_inbound', 'jall_impossible_route',
-              'two_joins_same_inbound'):
-        P[k] = J[k]
+    # every join shape (the reference model excludes the ones whose
+    # outcome legitimately depends on the order: join one / N)
+    for k in J:
+        if k not in P:
+            P[k] = J[k]
+            if k not in CORE_JOIN_SHAPES:
+                EXTRA_JOIN_SHAPES.add(k)
     # programs in which one task specification is used several times in a
     # run (retry attempts, items, loop iterations, two calls of one child):
     # a specification object changed by its use shows as a difference
@@ -136,10 +176,13 @@ def scenarios(tier):
                        {'i0': ['E'], 'i1': ['S'], 'b': ['S']}]
         if name == 'reuse_child':
             assigns = [{'s1': ['S', 'S']}, {'s1': ['S', 'E']}]
+        extra_shape = name in EXTRA_JOIN_SHAPES
+        if quick and extra_shape:
+            assigns = assigns[:2]
         for ai, res in enumerate(assigns):
             tag = ''.join(''.join(res[k]) for k in sorted(res))
             for cc in (False, True):
-                if quick and cc and n > 4:
+                if quick and cc and (n > 4 or extra_shape):
                     continue
                 scn = wfscn.ProgScenario(
                     '%s/%s/%s' % (name, tag, 'evict' if cc else 'cached'),
@@ -252,8 +295,9 @@ def main(tier):
             rep.violations.append({
                 'scenario': scn.name, 'kind': 'differential',
                 'message': 'the same program, input and action results end '
-                           'differently under two delivery orders: %s VS %s'
-                           % (keys[0][:500], keys[1][:500]),
+                           'differently under two delivery orders; %s; %s '
+                           'VS %s' % (first_diff(keys[0], keys[1]),
+                                      keys[0][:400], keys[1][:400]),
                 'path': outs[keys[0]][1], 'path_b': outs[keys[1]][1],
                 '_scn': scn})
         g = groups.setdefault(job[4], [])
@@ -277,8 +321,9 @@ def main(tier):
                        'the legacy scheduler'
                 rep.violations.append({
                     'scenario': gname, 'kind': 'differential',
-                    'message': 'outcome differs when %s: %s VS %s'
-                               % (what, ka[:500], kb[:500]),
+                    'message': 'outcome differs when %s; %s; %s VS %s'
+                               % (what, first_diff(ka, kb), ka[:400],
+                                  kb[:400]),
                     'path': pa, 'path_b': pb, 'spec_b': sb.spec(),
                     '_scn': sa})
     rep.extra = {'mode_pairs_compared': n_pairs,
